@@ -173,7 +173,7 @@ class ModuleGen(object):
             self.spec.features.add('module-docstring')
         n = rng.randint(2, 7)
         for k in range(n):
-            kind = rng.choice(['func', 'afunc', 'deco', 'class', 'class', 'if', 'try', 'main', 'with', 'adeco', 'ctxmgr'])
+            kind = rng.choice(['func', 'afunc', 'deco', 'class', 'class', 'if', 'try', 'main', 'with', 'adeco', 'ctxmgr', 'notmain'])
             self.spec.features.add('top:' + kind)
             if kind == 'func':
                 self.func('', 'f%d' % k, 'f%d' % k, True)
@@ -195,6 +195,11 @@ class ModuleGen(object):
             elif kind == 'with':
                 out.append('with open(os.devnull) as _f:')
                 self.func('    ', 'w%d' % k, 'w%d' % k, True)
+            elif kind == 'notmain':
+                # not the main guard: the block runs on import, its definitions are collected
+                out.append('if %s:' % rng.choice(["__name__ != '__main__'", "'__main__' != __name__", "__name__ is not None",
+                                                   "__name__ not in ('__main__',)"]))
+                self.func('    ', 'nm%d' % k, 'nm%d' % k, True)
             elif kind == 'main':
                 out.append('if __name__ == %s:' % rng.choice(["'__main__'", '"__main__"']))
                 self.func('    ', 'm%d' % k, 'm%d' % k, False, forbid='code under the __main__ guard')
